@@ -8,7 +8,7 @@ here is either a false alarm (fix the machinery) or shows that the change was no
 import json, os, shutil, subprocess, sys, tempfile, time
 
 wt, n, bid, *props = sys.argv[1:]
-ROOT = "/verif"
+ROOT = os.environ.get("VERIF_ROOT", "/verif")
 STORED = wt == "stored"
 d = f"{ROOT}/benign/{bid}"
 if STORED:
